@@ -15,7 +15,11 @@ RULE = ("random context-free grammars (ambiguous ones, epsilon productions and e
         "listings by the derivation checker, and refusals are compared with the membership oracle. FCFG trees are "
         "covered under C18's generator. Non-trivial: >=2 productions, one with a body of length >=2.")
 LEVEL = "proof"
-THEOREMS = ["Pfl.CFG.treeValid_sound",
+THEOREMS = ["Pfl.RecDescent.rdMatch_of_derives",
+            "Pfl.RecDescent.parse_valid",
+            "Pfl.RecDescent.parse_refuses_only_nonmembers",
+            "Pfl.LL1Lib.parse_valid",
+            "Pfl.CFG.treeValid_sound",
             "Pfl.CFG.treeValid_complete",
             "Pfl.CFG.wellFormedT_gen",
             "Pfl.CFG.leftStep_derives",
